@@ -77,6 +77,9 @@ func concI(v value, what string) int {
 func zzInt(fr *frame, args []value) value {
 	m := fr.m
 	tag := concStr(args[0], "tag")
+	if m.concreteMode {
+		return int(m.concInt64(tag))
+	}
 	n := m.fresh(tag, sInt)
 	m.assume("(and (>= " + n + " (- 9223372036854775808)) (<= " + n + " 9223372036854775807))")
 	m.bounds[tag] = "int64"
@@ -87,6 +90,9 @@ func zzIntRange(fr *frame, args []value) value {
 	m := fr.m
 	tag := concStr(args[0], "tag")
 	lo, hi := concI(args[1], "lo"), concI(args[2], "hi")
+	if m.concreteMode {
+		return int(m.concInt64(tag))
+	}
 	n := m.fresh(tag, sInt)
 	m.assume("(and (>= " + n + " " + smtInt(int64(lo)) + ") (<= " + n + " " + smtInt(int64(hi)) + "))")
 	m.bounds[tag] = fmt.Sprintf("[%d,%d]", lo, hi)
@@ -96,6 +102,9 @@ func zzIntRange(fr *frame, args []value) value {
 func zzBool(fr *frame, args []value) value {
 	m := fr.m
 	tag := concStr(args[0], "tag")
+	if m.concreteMode {
+		return m.nextConcrete(tag).Value == "true"
+	}
 	n := m.fresh(tag, sBool)
 	m.bounds[tag] = "bool"
 	return mkBool(n)
@@ -119,7 +128,10 @@ func alphabetRe(alpha string) string {
 	return "(re.union " + strings.Join(parts, " ") + ")"
 }
 
-func (m *machine) freshStr(tag string, maxLen int, alpha string) *symv {
+func (m *machine) freshStr(tag string, maxLen int, alpha string) value {
+	if m.concreteMode {
+		return m.nextConcrete(tag).Value
+	}
 	n := m.fresh(tag, sStr)
 	m.assume("(<= (str.len " + n + ") " + strconv.Itoa(maxLen) + ")")
 	m.assume("(str.in_re " + n + " (re.* " + alphabetRe(alpha) + "))")
@@ -141,6 +153,9 @@ func zzPick(fr *frame, args []value) value {
 	m := fr.m
 	tag := concStr(args[0], "tag")
 	n := concI(args[1], "n")
+	if m.concreteMode {
+		return int(m.concInt64(tag))
+	}
 	v := m.fresh(tag, sInt)
 	m.assume("(and (>= " + v + " 0) (< " + v + " " + strconv.Itoa(n) + "))")
 	m.bounds[tag] = fmt.Sprintf("index [0,%d)", n)
@@ -153,6 +168,9 @@ func zzOneOf(fr *frame, args []value) value {
 	vals := args[1].([]value)
 	if len(vals) == 0 {
 		panic(engineErr("OneOf without values"))
+	}
+	if m.concreteMode {
+		return vals[m.concInt64(tag)]
 	}
 	v := m.fresh(tag, sInt)
 	m.assume("(and (>= " + v + " 0) (< " + v + " " + strconv.Itoa(len(vals)) + "))")
@@ -179,6 +197,9 @@ func zzFloat(fr *frame, args []value) value {
 	m := fr.m
 	tag := concStr(args[0], "tag")
 	vals := args[1].([]value)
+	if m.concreteMode {
+		return vals[m.concInt64(tag)]
+	}
 	v := m.fresh(tag, sInt)
 	m.assume("(and (>= " + v + " 0) (< " + v + " " + strconv.Itoa(len(vals)) + "))")
 	t := termOf(vals[len(vals)-1])
@@ -197,6 +218,9 @@ func zzLen(fr *frame, args []value) value {
 	m := fr.m
 	tag := concStr(args[0], "tag")
 	lo, hi := concI(args[1], "lo"), concI(args[2], "hi")
+	if m.concreteMode {
+		return int(m.concInt64(tag))
+	}
 	n := m.fresh(tag, sInt)
 	m.assume("(and (>= " + n + " " + smtInt(int64(lo)) + ") (<= " + n + " " + smtInt(int64(hi)) + "))")
 	m.bounds[tag] = fmt.Sprintf("size [%d,%d] (each value explored)", lo, hi)
